@@ -28,10 +28,10 @@ func init() {
 							if c.Kind == 1 && c.Cap > 4097 && !c.NeedCOW && T <= 4097 {
 								b, o = sl, w.B[sl]
 								k = c.Key
-							T = 4097 + r.Intn(c.Cap-4097+1)
-							if T > 4400 {
-								T = 4097 + r.Intn(300)
-							}
+								T = 4097 + r.Intn(c.Cap-4097+1)
+								if T > 4400 {
+									T = 4097 + r.Intn(300)
+								}
 								w.probe("thresh-array-with-spare-capacity")
 								return
 							}
@@ -584,13 +584,20 @@ func init() {
 			default:
 				h0 = uint64(w.X.bucketKey(r))
 			}
-			n := 2 + r.Intn(3)
+			n := 2 + r.Intn(4)
 			var slots []int
 			var steps []Step
 			for i := 0; i < n; i++ {
 				sl := w.slot64(r)
+				if i > 0 && r.Chance(1, 3) {
+					// this input starts as a copy-on-write clone of the previous one: its buckets are
+					// flagged as shared in both
+					prev := slots[i-1]
+					sl = (prev + 1 + r.Intn(numB64-1)) % numB64
+					steps = append(steps, Step{Op: "maint64", S: []int{sl, prev}, A: []uint64{2}}, Step{Op: "maint64", S: []int{sl, prev}, A: []uint64{1}})
+				}
 				slots = append(slots, sl)
-				if r.Chance(1, 3) {
+				if r.Chance(1, 3) && len(steps) == 0 {
 					steps = append(steps, Step{Op: "maint64", S: []int{sl, (sl + 1) % numB64}, A: []uint64{6}})
 				}
 				for j := 0; j < 1+r.Intn(2); j++ {
@@ -711,6 +718,151 @@ func init() {
 			}
 			dst := (sl + 1 + r.Intn(len(w.B)-1)) % len(w.B)
 			return Step{Op: "addoffset", S: []int{dst, sl}, A: []uint64{uint64(d), 0}}, true
+		},
+		exec: func(w *World, st *Step) {}})
+}
+
+func init() {
+	// magic64: a 64-bit bitmap whose bucket count equals one of the portable format's cookies
+	// (the 64-bit stream starts with the bucket count, the 32-bit stream with a cookie: a reader
+	// that tries to tell them apart must not be fooled by the count)
+	reg(&opDef{name: "magic64", tag: "C18",
+		gen: func(w *World, r *Rng) (Step, bool) {
+			if w.regionsLive() >= maxRegions-2 {
+				return Step{}, false
+			}
+			a := w.slot64(r)
+			dst := (a + 1) % numB64
+			n := []uint64{12346, 12347, 12347, 12345}[r.Intn(4)]
+			h0 := uint64(r.Intn(1 << 20))
+			steps := []Step{
+				{Op: "maint64", S: []int{a, dst}, A: []uint64{6}},
+				{Op: "addmany64", S: []int{a}, A: []uint64{h0, uint64(w.key(r)), 8, n, r.U64()}},
+			}
+			for i := 0; i < 2; i++ {
+				steps = append(steps, Step{Op: "rt64", S: []int{dst, a}, A: []uint64{uint64(r.Intn(4)), uint64(r.Intn(4)), r.U64(), 0}})
+			}
+			steps = append(steps, Step{Op: "maint64", S: []int{a, dst}, A: []uint64{6}}, Step{Op: "maint64", S: []int{dst, a}, A: []uint64{6}})
+			w.pending = append(w.pending, steps[1:]...)
+			w.probe("magic64-scenario")
+			return steps[0], true
+		},
+		exec: func(w *World, st *Step) {}})
+}
+
+func init() {
+	// cow64: a copy-on-write 64-bit bitmap over several buckets, a clone that shares them, and an
+	// operand that cancels some of the receiver's buckets, skips others and reaches beyond: the
+	// in-place operations compact the bucket table while the clone still shares what survives
+	reg(&opDef{name: "cow64", tag: "C07",
+		gen: func(w *World, r *Rng) (Step, bool) {
+			a := w.slot64(r)
+			b, x := (a+1)%numB64, (a+2)%numB64
+			h0 := uint64(r.Intn(1 << 16))
+			if r.Chance(1, 4) {
+				h0 = 0xFFFFFFFF - 40 - uint64(r.Intn(10))
+			}
+			n := uint64(4 + r.Intn(9))
+			key := uint64(w.key(r))
+			steps := []Step{
+				{Op: "maint64", S: []int{a, b}, A: []uint64{6}},
+				{Op: "addmany64", S: []int{a}, A: []uint64{h0, key, 7, n, r.U64()}},
+				{Op: "maint64", S: []int{b, a}, A: []uint64{2}}, // SetCopyOnWrite(true) on a
+				{Op: "maint64", S: []int{b, a}, A: []uint64{1}}, // b = a.Clone()
+				{Op: "maint64", S: []int{x, a}, A: []uint64{1}}, // x = a.Clone()
+			}
+			// x loses one or two of the later buckets, gains one beyond a's last
+			for i := 0; i < 1+r.Intn(2); i++ {
+				j := 1 + uint64(r.Intn(int(n-1)))
+				steps = append(steps, Step{Op: "removerange64", S: []int{x}, A: []uint64{(h0 + j) << 32, (h0 + j + 1) << 32}})
+			}
+			steps = append(steps, Step{Op: "addmany64", S: []int{x}, A: []uint64{h0 + n + uint64(r.Intn(5)), key, 7, uint64(1 + r.Intn(3)), r.U64()}})
+			op := uint64([]int{3, 3, 0, 2, 1}[r.Intn(5)])
+			steps = append(steps, Step{Op: "binop64", S: []int{a, a, x}, A: []uint64{op, 1}})
+			// then write through the receiver inside what survived
+			for i := 0; i < 2; i++ {
+				steps = append(steps, Step{Op: "addmany64", S: []int{a}, A: []uint64{h0 + uint64(r.Intn(int(n))), key, 0, uint64(1 + r.Intn(20)), r.U64()}})
+			}
+			w.pending = append(w.pending, steps[1:]...)
+			w.probe("cow64-scenario")
+			return steps[0], true
+		},
+		exec: func(w *World, st *Step) {}})
+
+	// shrinkcow: a bitmap with hundreds of chunks shared with a copy-on-write clone loses most of
+	// them in one call (the chunk table may be re-allocated or compacted), then the survivors
+	// are written to
+	reg(&opDef{name: "shrinkcow", tag: "C02",
+		gen: func(w *World, r *Rng) (Step, bool) {
+			a := w.slot(r)
+			b := (a + 1 + r.Intn(len(w.B)-1)) % len(w.B)
+			k0 := uint64(r.Intn(2000))
+			if r.Chance(1, 4) {
+				k0 = 0xFFFF - 1500 + uint64(r.Intn(100))
+			}
+			n := uint64(260 + r.Intn(1200))
+			if k0+n > 0xFFFF {
+				n = 0xFFFF - k0
+			}
+			keep := uint64(2 + r.Intn(60))
+			steps := []Step{
+				{Op: "clear", S: []int{a}},
+				{Op: "addmany", S: []int{a}, A: []uint64{k0, 7, n, r.U64()}},
+				{Op: "setcow", S: []int{a}, A: []uint64{1}},
+				{Op: "clone", S: []int{b, a}},
+			}
+			// drop all but `keep` chunks in one call: a suffix, a prefix, or the middle
+			switch r.Intn(3) {
+			case 0:
+				steps = append(steps, Step{Op: "removerange", S: []int{a}, A: []uint64{(k0 + keep) << 16, (k0 + n) << 16}})
+			case 1:
+				steps = append(steps, Step{Op: "removerange", S: []int{a}, A: []uint64{k0 << 16, (k0 + n - keep) << 16}})
+			default:
+				steps = append(steps, Step{Op: "removerange", S: []int{a}, A: []uint64{(k0 + keep/2 + 1) << 16, (k0 + n - keep/2) << 16}})
+			}
+			// write into what survived, at both ends
+			for _, k := range []uint64{k0, k0 + 1, k0 + n - 1, k0 + keep/2} {
+				steps = append(steps, Step{Op: "addmany", S: []int{a}, A: []uint64{k, 0, uint64(1 + r.Intn(30)), r.U64()}})
+			}
+			w.pending = append(w.pending, steps[1:]...)
+			w.probe("shrinkcow-scenario")
+			return steps[0], true
+		},
+		exec: func(w *World, st *Step) {}})
+}
+
+func init() {
+	// breakeven: an array chunk whose run encoding is within a few bytes of its array encoding
+	// (long consecutive stretches at varying positions among isolated values), then the
+	// representation decisions: RunOptimize, a shift by a non-multiple of 65536, a round trip
+	reg(&opDef{name: "breakeven", tag: "C09",
+		gen: func(w *World, r *Rng) (Step, bool) {
+			a := w.slot(r)
+			k := uint64(w.key(r))
+			if r.Chance(1, 3) {
+				// several such chunks from key 0 upwards and nothing else: the size bounds have no
+				// slack to absorb a few bytes per chunk
+				m := 4 + r.Intn(8)
+				steps := []Step{{Op: "clear", S: []int{a}}}
+				for i := 0; i < m; i++ {
+					steps = append(steps, Step{Op: "addmany", S: []int{a}, A: []uint64{uint64(i), 8, 0, r.U64()}})
+				}
+				steps = append(steps, Step{Op: "runopt", S: []int{a}})
+				w.pending = append(w.pending, steps[1:]...)
+				w.probe("breakeven-scenario-many-chunks")
+				return steps[0], true
+			}
+			steps := []Step{
+				{Op: "removerange", S: []int{a}, A: []uint64{k << 16, (k + 1) << 16}},
+				{Op: "addmany", S: []int{a}, A: []uint64{k, 8, 0, r.U64()}},
+				{Op: "runopt", S: []int{a}},
+			}
+			if r.Bool() {
+				steps = append(steps, Step{Op: "add", S: []int{a}, A: []uint64{k<<16 | uint64(low(r)), 0}}, Step{Op: "runopt", S: []int{a}})
+			}
+			w.pending = append(w.pending, steps[1:]...)
+			w.probe("breakeven-scenario")
+			return steps[0], true
 		},
 		exec: func(w *World, st *Step) {}})
 }
